@@ -851,3 +851,17 @@ func (w *muxWorld) finish() {
 	w.poll()
 	w.r.StopTasks()
 }
+
+// directGet performs a request synchronously on the calling goroutine.
+func (w *muxWorld) directGet(pathAndQuery string) *httpResp {
+	u, err := url.Parse("http://origin/" + pathAndQuery)
+	if err != nil {
+		panic(err)
+	}
+	resp := &httpResp{path: pathAndQuery, hdr: http.Header{}}
+	w.m.Handle(&respWriter{resp}, &http.Request{Method: "GET", URL: u, Header: http.Header{}})
+	resp.mu.Lock()
+	resp.done = true
+	resp.mu.Unlock()
+	return resp
+}
